@@ -329,20 +329,73 @@ def check_true_color(prog, rep):
         rep.add('M5-channels', f, entry, 'channel order %s + alpha' % order, f.node.lineno,
                 order == [rp, gp, bp] and 3 in chan and set(chan) == {0, 1, 2, 3},
                 'RGBA channels must be (r, g, b, alpha) in this order, each colour the normalised band')
-    # normalisation kernel: sigmoid of the min/max-normalised value, global min/max (numpy path)
-    kern = m.funcs.get('_normalize_data_cpu')
-    if kern is None:
-        raise AnalysisIncomplete('_normalize_data_cpu not found')
-    k = interpret(prog, kern)
-    stores = [s for s in k.stores if s.idx != 'all']
-    env = {p: Rat.sym(p) for p in kern.params}
-    env['data'] = Arr('data', 'param')
-    for s in stores:
-        yv, xv = s.idx
-        env2 = dict(env, y=yv, x=xv)
-        want = Spec(prog, env2).expr('pixel_max / (1 + exp(c * (th - (data[y, x] - min_val) / (max_val - min_val))))')
-        rep.add('M5-sigmoid', kern, 'true_color', norm(s.node), s.node.lineno, approx_equal(s.value, want, tol=0),
-                'normalised channel must be pixel_max * sigmoid(c * ((v - min)/(max - min) - th)); got %s' % show(s.value, 200))
+    # normalisation kernel: sigmoid of the min/max-normalised value, global min/max (numpy path).  The kernel's
+    # parameters get their roles from what the public function hands them (wrapper terms through the dispatch), not
+    # from their names or positions: the band, its nanmin, its nanmax, and the public c / th / the constant 255.
+    from ..wterm import WT, key as tkey, show as tshow
+    pub = m.funcs.get('true_color')
+    wk = WT(prog, depth=6, backend='numpy')
+    wk.run(pub)
+    kcalls = [c_ for c_ in wk.calls if isinstance(c_.callee, Func) and c_.callee.jit is not None and c_.bound
+              and any(isinstance(v_, tuple) and v_[0] == 'call' and v_[1] in ('numpy.nanmin', 'numpy.nanmax') for v_ in c_.bound.values())]
+    if not kcalls:
+        raise AnalysisIncomplete('normalisation kernel call (with the band nanmin / nanmax) not found on the numpy path of true_color')
+    seen = set()
+    for kc in kcalls:
+        kern = kc.callee
+        sig = (kern.qualname, tuple(sorted((p_, tkey(_band_free(v_, pub))) for p_, v_ in kc.bound.items())))
+        if sig in seen:
+            continue
+        seen.add(sig)
+        args, ras, why, ras_ts = {}, None, '', []
+        for p_, v_ in kc.bound.items():
+            if v_[0] == 'const' and isinstance(v_[1], (int, float)):
+                args[p_] = Rat.const(v_[1])
+            elif v_[0] == 'param':
+                args[p_] = Rat.sym(v_[1])
+            elif v_[0] == 'call' and v_[1] in ('numpy.nanmin', 'numpy.nanmax') and len(v_[2]) == 1:
+                args[p_] = Rat.sym('band_min' if v_[1].endswith('min') else 'band_max')
+                ras_ts.append(v_[2][0])
+            else:
+                args[p_] = v_
+        for p_, v_ in kc.bound.items():
+            if isinstance(args[p_], tuple):
+                if ras_ts and tkey(v_) == tkey(ras_ts[0]):
+                    ras = p_
+                    args[p_] = Arr(p_, 'param')
+                else:
+                    why = 'kernel parameter %s bound to %s' % (p_, tshow(v_, 80))
+        if len(set(tkey(t_) for t_ in ras_ts)) > 1:
+            rep.add('M5-sigmoid', kern, 'true_color', 'kernel call', kc.node.lineno, False,
+                    'minimum and maximum handed to the normalisation are taken over different arrays: %s' % ', '.join(tshow(t_, 60) for t_ in ras_ts))
+            continue
+        if ras is None or why:
+            rep.add('M5-sigmoid', kern, 'true_color', 'kernel call', kc.node.lineno, None, why or 'band argument of the kernel not identified')
+            continue
+        k = interpret(prog, kern, args=args)
+        stores = [s_ for s_ in k.stores if s_.idx != 'all']
+        for s_ in stores:
+            yv, xv = s_.idx
+            env2 = dict(args, y=yv, x=xv, data=args[ras], band_min=Rat.sym('band_min'), band_max=Rat.sym('band_max'),
+                        c=Rat.sym('c'), th=Rat.sym('th'))
+            want = Spec(prog, env2).expr('255 / (1 + exp(c * (th - (data[y, x] - band_min) / (band_max - band_min))))')
+            rep.add('M5-sigmoid', kern, 'true_color', norm(s_.node), s_.node.lineno, approx_equal(s_.value, want, tol=0),
+                    'normalised channel must be 255 * sigmoid(c * ((v - min)/(max - min) - th)) with the band\'s own nanmin / nanmax and '
+                    'the public c / th; got %s' % show(s_.value, 200))
+
+
+def _band_free(t, pub):
+    """term with the band parameter names (first three public parameters) replaced by one placeholder: the three channel calls
+    are one rule instance"""
+    bands = set(pub.params[:3])
+
+    def go(x):
+        if isinstance(x, tuple):
+            if len(x) == 2 and x[0] == 'param' and x[1] in bands:
+                return ('param', '<band>')
+            return tuple(go(y) for y in x)
+        return x
+    return go(t)
 
 
 def _const(f, e):
